@@ -147,6 +147,32 @@ example :
       [.cur, .normal ['a']] [.normal ['m', '.', 'l', 'u', 'a']]).toOption
       = some [.cur, .normal ['a', '.', 'l', 'u', 'a']] := by decide
 
+/-! ## Resolution is a function of (file system, mode, requiring file, require) -/
+
+/-- However many calls one locator has answered before and will answer after, the answer to a
+call is the answer a fresh locator gives: no history can change where a require resolves. -/
+theorem find_history_independent (md : Mode) (proj : Path) (isFile : Path → Bool)
+    (before after : List (Path × Path)) (req source : Path) :
+    (md.findHistory proj isFile (before ++ (req, source) :: after))[before.length]? =
+      some (md.find proj isFile req source) := by
+  simp [Mode.findHistory]
+
+/-- the same, as a whole: a history is answered call by call -/
+theorem find_history_pointwise (md : Mode) (proj : Path) (isFile : Path → Bool)
+    (calls : List (Path × Path)) (i : Nat) :
+    (md.findHistory proj isFile calls)[i]? = (calls[i]?).map fun c => md.find proj isFile c.1 c.2 := by
+  simp [Mode.findHistory]
+
+example :
+    ((Mode.luau ⟨[], none⟩).findHistory [.cur]
+      (memIsFile [[.normal ['a'], .normal ['u', '.', 'l', 'u', 'a', 'u']],
+                  [.normal ['b'], .normal ['u', '.', 'l', 'u', 'a', 'u']]])
+      [([.normal selfName, .normal ['u']], [.normal ['a'], .normal ['i', 'n', 'i', 't', '.', 'l', 'u', 'a', 'u']]),
+       ([.normal selfName, .normal ['u']], [.normal ['b'], .normal ['i', 'n', 'i', 't', '.', 'l', 'u', 'a', 'u']])]).map
+      Except.toOption =
+    [some [.normal ['a'], .normal ['u', '.', 'l', 'u', 'a', 'u']],
+     some [.normal ['b'], .normal ['u', '.', 'l', 'u', 'a', 'u']]] := by decide
+
 /-! ## Heads: relative requires start at the requiring file's directory -/
 
 theorem resolve_dropCur (cwd : List Name) (p : Path) : resolve cwd (dropCur p) = resolve cwd p := by
